@@ -1001,6 +1001,9 @@ def parse_tree_to_objgraph(
                 models = list(
                     filter(lambda x: hasattr(x, "_tx_reference_resolver"), models)
                 )
+                # (collected now: once the construction of a user class model
+                # has ended its `_tx_parser` is not accessible until __init__)
+                parsers = [m._tx_parser for m in models if hasattr(m, "_tx_parser")]
 
                 resolved_count = 1
                 unresolved_count = 1
@@ -1062,6 +1065,7 @@ def parse_tree_to_objgraph(
                 # remove all processed models from (global) repo (if present)
                 # (remove all of them, not only the model with errors,
                 # since, models with errors may be included in other models)
+                _abort_model_construction(parsers)
                 remove_models_from_repositories(models, models)
                 raise
 
@@ -1145,6 +1149,18 @@ def _end_model_construction(model):
                 raise e
 
 
+def _abort_model_construction(parsers):
+    """
+    Give up the construction of the models of the given parsers after a
+    failed load: the parsers of imported models which were already parsed
+    still hold their instrumentation of the user classes (it is normally
+    given back in _end_model_construction, which these models will never
+    reach).
+    """
+    for the_parser in parsers:
+        the_parser._restore_user_attr_methods()
+
+
 def _remove_all_affected_models_in_construction(model):
     """
     Remove all models related to model being constructed
@@ -1157,6 +1173,9 @@ def _remove_all_affected_models_in_construction(model):
     all_affected_models = get_included_models(model)
     models_to_be_removed = list(
         filter(lambda x: hasattr(x, "_tx_reference_resolver"), all_affected_models)
+    )
+    _abort_model_construction(
+        [m._tx_parser for m in models_to_be_removed if hasattr(m, "_tx_parser")]
     )
     remove_models_from_repositories(all_affected_models, models_to_be_removed)
 
